@@ -100,8 +100,8 @@ class _Base(object):
         return list(to_obj(a).reshape(-1))
 
     def sqrt(self, x):
-        if is_sym(x):
-            return V.v_sqrt(x)
+        if is_sym(x) or self.symbolic:
+            return V.v_sqrt(x)     # exact (rational or algebraic) also for constants
         with np.errstate(all="ignore"):
             return float(np.sqrt(np.float64(x)))
 
